@@ -126,7 +126,9 @@ PLAN = {
               "segment marked last (ghost sequences of requests/replies carried through the loop); SdoNormal::upload / SdoSegmented::upload / SdoExpedited::download field values",
         note="relative to the spec encodings (the device is not modelled); array helpers are not under contract; the field decoders of the two reply shapes declared inside "
              "mailbox_write_read (HeadersRaw, EmergencyData) are assumed to decode what their #[wire] attributes say (a harness cannot name a fn-local type); "
-             "wait_for_mailboxes / wait_for_mailbox_response (status polling under `async{}.timeout()`) are assumed to return the configured mailboxes / any bytes; "
+             "wait_for_mailboxes / wait_for_mailbox_response are extracted whole as well (rule R18): (read, write) mailbox pair in that order, stale-mailbox drain of at most 10 "
+             "rounds, both polling loops inside their mailbox_echo / mailbox_response timeout scope (termination, assumption A-TIME-1), the reply is a checked read of exactly the read "
+             "mailbox's address and length; a reply left over from an earlier request with the same index/sub-index is not told apart (the counter is not compared); "
              "other header wire layouts are the C19 harnesses",
     ),
     "C16": dict(
